@@ -10,6 +10,7 @@ import (
 	"strings"
 
 	fibmap "github.com/frostschutz/go-fibmap"
+	"github.com/openebs/jiva/replica"
 	"github.com/openebs/jiva/types"
 )
 
@@ -133,7 +134,7 @@ func (x *inst) key() string {
 	}
 
 	var b strings.Builder
-	fmt.Fprintf(&b, "M live=%s open=%v mode=%s reb=%v dirty=%v cp=%s punch=%v\n", r.img(m.Live), m.Open, m.Mode, m.Rebuilding, m.Dirty, r.name(diskIf(m.Checkpoint)), types.ShouldPunchHoles)
+	fmt.Fprintf(&b, "M live=%s open=%v mode=%s reb=%v dirty=%v cp=%s punch=%v del=%v\n", r.img(m.Live), m.Open, m.Mode, m.Rebuilding, m.Dirty, r.name(diskIf(m.Checkpoint)), types.ShouldPunchHoles, m.Deleted)
 	for _, s := range m.Chain {
 		fmt.Fprintf(&b, "C %s u=%v r=%v img=%s\n", r.name(disk(s.Name)), s.User, s.Removed, r.img(s.Img))
 	}
@@ -170,6 +171,14 @@ func (x *inst) key() string {
 		fmt.Fprintf(&b, "R children=%v\n", cs)
 	} else {
 		b.WriteString("R closed\n")
+	}
+	if x.hold != nil {
+		// pending holes, in queue order (the order decides nothing the code can observe, but keeping it is merely finer)
+		b.WriteString("H held")
+		for _, h := range replica.VerifQueuedHoles() {
+			fmt.Fprintf(&b, " %s/%v@%d+%d", r.name(h.File), h.Closed, h.Off, h.Len)
+		}
+		b.WriteString("\n")
 	}
 	var files []string
 	for _, e := range ents {
